@@ -60,7 +60,24 @@ fn clone_from_case() {
     assert_eq!(dst.len(), found);
 }
 
+/// C15: two requests that resolve to two DIFFERENT entries of a table of zero-sized elements.
+fn manymut_zst_case() {
+    use hashbrown::HashTable;
+    let mut t: HashTable<()> = HashTable::new();
+    let (h1, h2) = (1u64 << 57, 2u64 << 57); // different tag bits: each lookup can only match its own entry
+    t.insert_unique(h1, (), |_| unreachable!());
+    t.insert_unique(h2, (), |_| 0);
+    println!("len={}", t.len());
+    assert_eq!(t.len(), 2);
+    let r = catch_unwind(AssertUnwindSafe(|| {
+        let [a, b] = t.get_many_mut([h1, h2], |_, _| true);
+        (a.is_some(), b.is_some())
+    }));
+    println!("get_many_mut on two distinct entries: {:?}", r.as_ref().map_err(|_| "panicked"));
+    assert_eq!(r.ok(), Some((true, true)), "two distinct entries must yield two references, not a duplicate panic");
+}
+
 fn main() {
     let which = std::env::args().nth(1).unwrap_or_default();
-    if which == "rehash" { rehash_case() } else { clone_from_case() }
+    if which == "rehash" { rehash_case() } else if which == "manymut-zst" { manymut_zst_case() } else { clone_from_case() }
 }
